@@ -9,6 +9,7 @@ static W* vm_mem[VM_MAXOBJ];
 static unsigned long vm_size[VM_MAXOBJ];
 static int vm_site_of[VM_MAXOBJ];
 static char vm_livef[VM_MAXOBJ];
+static unsigned char* vm_written[VM_MAXOBJ]; /* per cell: has the program stored to it (else: indeterminate malloc/stack garbage) */
 static int vm_nobj;
 static W vm_tid, vm_kt;
 static int vm_dead;
